@@ -264,6 +264,22 @@ CHECKS = {
         "Trusted: the four reference computations (about 15 lines each).",
         "4/C21",
     ),
+    "C05": (
+        "reference-model runtime monitor: per-method documented meaning vs Pandas, SQLite, PostgreSQL dialect, Polars",
+        "Every row of the repository's own method catalog (124 rows) plus 12 compound-argument variants is evaluated - "
+        "scalar methods in an extend, g-class in a partitioned extend, p-class in a grouped project, w-class in an ordered "
+        "window - over frames of hostile vectors (nulls, 0, negatives, boundary points, 1e-3, 1e6, equal arguments, "
+        "empty / single-row / all-null frames). Every backend the catalog marks 'y' (Pandas; SQLite; PostgreSQL dialect "
+        "on the SQLite surrogate) and Polars whenever it returns must give every row the value of a per-method reference "
+        "written from the documentation (maximum/minimum propagate nulls, fmax/fmin ignore them, if_else is null on a "
+        "null condition, where takes the second branch, coalesce, mapv default, null-propagating arithmetic ...).",
+        "Trusted: the reference table in vf/checks/c05.py. Not compared (documentation fixes no value): comparisons / "
+        "logic / is_in / string operations at a null operand, rounding at exact .5, arguments outside a method's "
+        "domain (a refusal there is counted), as_str of floats, std/var of < 2 values, sum of an all-null group, "
+        "dayofweek / weekofyear / base_Sunday / rank / cumcount / _ngroup / _uniform / any_value conventions, missing "
+        "dates. Date methods are judged on Pandas/Polars only; is_inf/is_bad/is_nan are not run on the surrogate.",
+        "4/C05",
+    ),
 }
 
 NOT_BUILT = "check not built yet (build in progress, see DESIGN.md section 8)"
